@@ -1,4 +1,7 @@
+#[cfg(not(adlt_verif_sched))]
 use std::sync::mpsc::Receiver;
+#[cfg(adlt_verif_sched)]
+use shuttle::sync::mpsc::Receiver;
 
 use crate::dlt::DltMessage;
 use crate::dlt::Error;
